@@ -406,6 +406,8 @@ def match_known_native(known, failure):
             continue
         if 'input_flag' in nat and not (isinstance(inp, dict) and inp.get(nat['input_flag']) is True):
             continue
+        if 'witness' in nat and any(failure.get(wk) != wv for wk, wv in nat['witness'].items()):
+            continue
         return k
     return None
 
@@ -490,7 +492,7 @@ def write_replay(pid, ob, r, witness, smt2):
     if smt2 is not None:
         data['smt2'] = smt2
     with open(path, 'w') as f:
-        json.dump(data, f, indent=1, default=str, ensure_ascii=False)
+        json.dump(data, f, indent=1, default=str, ensure_ascii=True)
     return path
 
 
